@@ -310,4 +310,34 @@ theorem handleConn_sched (dec : Bytes → Bool) (max : Nat) (done : Nat → Nat)
         | nil => simp [handleConn, readMsgFromTCP, h1, h2, hp, admissionS]
         | cons y ys => simp [handleConn, readMsgFromTCP, h1, h2, hp, admissionS]
 
+
+/-! ### idle deadline -/
+
+theorem idleLoop_paced (idle : Nat) (lag : Nat → Nat) : ∀ (arr : List Nat) (j prev now : Nat),
+    prev ≤ now → paced idle prev arr → idleLoop idle lag j now arr = arr.length := by
+  intro arr
+  induction arr with
+  | nil => intro j prev now _ _; rfl
+  | cons a as ih =>
+    intro j prev now hle hp
+    obtain ⟨h1, h2⟩ := hp
+    have hna : ¬ a > now + idle := by omega
+    have hmax : a ≤ Nat.max now a + lag j := by
+      have : a ≤ Nat.max now a := Nat.le_max_right now a
+      omega
+    simp only [idleLoop, hna, if_false, List.length_cons]
+    rw [ih (j + 1) a _ hmax h2]; omega
+
+theorem gnetIdle_gaps (idle : Nat) : ∀ (ts : List Nat) (prev last : Nat),
+    prev ≤ last → gapsBelow idle prev ts → gnetIdle idle last ts = ts.length := by
+  intro ts
+  induction ts with
+  | nil => intro prev last _ _; rfl
+  | cons t ts ih =>
+    intro prev last hle hp
+    obtain ⟨h1, h2⟩ := hp
+    have hn : ¬ t ≥ last + idle := by omega
+    simp only [gnetIdle, hn, if_false, List.length_cons]
+    rw [ih t _ (Nat.le_max_right last t) h2]; omega
+
 end MosVerif.Framing
